@@ -84,8 +84,13 @@ impl Eq for DFA {}
 impl std::hash::Hash for DFA {
     fn hash<H: std::hash::Hasher>(&self, state: &mut H) {
         self.starting_state.hash(state);
-        for (from, tos) in &self.transitions {
+        // `==` on IndexMaps ignores insertion order, so the hash has to ignore it as well.
+        let mut froms: Vec<(&StateId, &IndexMap<InpId, StateId>)> = self.transitions.iter().collect();
+        froms.sort_unstable_by_key(|(from, _)| **from);
+        for (from, tos) in froms {
             from.hash(state);
+            let mut tos: Vec<(&InpId, &StateId)> = tos.iter().collect();
+            tos.sort_unstable_by_key(|(inp_id, _)| inp_id.0);
             for to in tos {
                 to.hash(state);
             }
